@@ -234,10 +234,10 @@ def generate(module, wd, out, constants=None, invariants=("Replay",), simulate=N
     return r
 
 
-def validate_trace(module, wd, trace, invariants=(), timeout=1800, heap="4g"):
+def validate_trace(module, wd, trace, invariants=(), timeout=1800, heap="4g", view=None):
     """Trace validation.  Returns (accepted, rejected_line, result)."""
     cfg = os.path.join(wd, module + ".cfg")
-    write_cfg(cfg, invariants=invariants, postcondition="Accepted")
+    write_cfg(cfg, invariants=invariants, postcondition="Accepted", view=view)
     env = {"TRACE": trace,
            "JAVA_TOOL_OPTIONS": JAVA_OPTS + " -Xmx%s -Dtlc2.tool.queue.IStateQueue=StateDeque" % heap}
     r = tlc(module, cfg, wd, workers=1, timeout=timeout, env=env, coverage=False)
@@ -252,7 +252,7 @@ def validate_trace(module, wd, trace, invariants=(), timeout=1800, heap="4g"):
     return True, None, r
 
 
-def validate_runs(module, wd, trace, invariants=(), max_rejections=20, timeout=1800, heap="4g"):
+def validate_runs(module, wd, trace, invariants=(), max_rejections=20, timeout=1800, heap="4g", view=None):
     """Validates a trace made of runs that each start with a Reset event.  On
     a rejection the offending run is cut out and the rest is validated again,
     so that one defect does not leave the remainder unexamined.  Returns
@@ -266,7 +266,7 @@ def validate_runs(module, wd, trace, invariants=(), max_rejections=20, timeout=1
     while True:
         if not lines:
             break
-        ok, line, r = validate_trace(module, wd, cur, invariants=invariants, timeout=timeout, heap=heap)
+        ok, line, r = validate_trace(module, wd, cur, invariants=invariants, timeout=timeout, heap=heap, view=view)
         states += r["states"]
         if ok:
             break
